@@ -189,8 +189,17 @@ fn cmd_tp(_text: &[u8]) -> String {
                         other => other.clone(),
                     }
                 }
+                fn has_nan(v: &toml::Value) -> bool {
+                    match v {
+                        toml::Value::Float(f) => f.is_nan(),
+                        toml::Value::Table(t) => t.iter().any(|(_, x)| has_nan(x)),
+                        toml::Value::Array(a) => a.iter().any(has_nan),
+                        _ => false,
+                    }
+                }
                 let r = rev(&v);
-                let eq = r == v && v == r && v == v.clone();
+                // NaN != NaN by IEEE 754: `==` is only meaningful for NaN-free values
+                let eq = if has_nan(&v) { "skip".to_string() } else { (r == v && v == r && v == v.clone()).to_string() };
                 format!("ok sorted={} order={} print={} eq={}", toml_dump(&v, true), toml_dump(&v, false), printed, eq)
             }
             Err(_) => "err".into(),
